@@ -222,8 +222,13 @@ def _case(draw):
         focus['mdstyle'] = draw(st.sampled_from(['short', 'braces']))
         case['focus'] = focus
     else:
-        what = draw(st.sampled_from(['clear', 'clear', 'vdel', 'clear-missing', 'clear-scalar']))
+        what = draw(st.sampled_from(['clear', 'clear', 'vdel', 'clear-missing', 'clear-scalar', 'clear-elem']))
         case['what'] = what
+        if what == 'clear-elem':
+            # !clear aimed at a container that is an element of a list, addressed by its index from either end
+            case['key'] = 'LL'
+            case['elem'] = draw(st.sampled_from([0, 1, -3, -2]))
+            return case
         # choose a target below path: existing container / scalar / missing
         cur = older
         for k in path:
@@ -533,6 +538,26 @@ def run_case(case):
                 if deep:
                     labels.add('c-inherited-merge-list-meets-list-at-depth>=2')
                     nontrivial = True
+    elif case.get('what') == 'clear-elem':
+        import copy
+        older = copy.deepcopy(older)
+        holder = _get(older, path)
+        if holder['t'] != 'map' or _is_call(holder):
+            return Outcome(labels=['d-skip-path-ends-on-non-mapping'])
+        holder['items'] = [it for it in holder['items'] if it[0] != 'LL'] + [['LL', tdoc.sq([tdoc.sq([tdoc.sc(1), tdoc.sc(2)], flow=True), tdoc.mp([('k', tdoc.sc(1))], flow=True), tdoc.sc(5)], flow=True)]]
+        i = case['elem']
+        newer = _wrap(path + ['LL'], tdoc.mp([(i, tdoc.empty(tag='!clear'))], flow=False))
+        t_old, t_new = tdoc.render(older), tdoc.render(newer)
+        src = f'\nolder:\n{t_old}\nnewer:\n{t_new}'
+        status, got = _build([t_old, t_new])
+        exp_list = [[1, 2], {'k': 1}, 5]
+        exp_list[i] = [] if i in (0, -3) else {}
+        expected = replace_at(ev(older), path + ['LL'], exp_list)
+        labels.add('d-clear-list-element' + ('-from-the-end' if i < 0 else ''))
+        if status != 'ok' or O.canon_unordered(got) != O.canon_unordered(expected):
+            raise Violation(f'C04d: !clear at element {i} of the list at {path + ["LL"]} must leave an empty container of the original kind there and '
+                            f'nothing else changed; got {got!r}, expected {expected!r}{src}')
+        nontrivial = True
     else:
         what, key = case['what'], case['key']
         mid_text = ''
